@@ -8,6 +8,8 @@ from .mir import Site, Unverifiable, callee_is, callee_path, const_int, op_fn, o
 
 CFGS = {"quick": ["default", "all"], "thorough": ["default", "all", "libtest", "nodefault", "json", "junit"]}
 
+WITNESS = ["WriterOrder"]  # doctests of engine/witness run in the thorough tier
+
 EXPLANATION = """
 Static rules over the MIR of the verdict plumbing: (R1) Stats::execution_has_failed is true iff one of failed_steps,
 parsing_errors, hook_errors is > 0 (path table of the provided method); (R2) run_and_exit panics exactly on the true
